@@ -4,6 +4,7 @@ import (
 	"context"
 	"errors"
 	"net"
+	"os"
 	"testing"
 
 	"github.com/matrix-org/gomatrixserverlib/verifrt"
@@ -15,6 +16,22 @@ func body(r *sim.Run) {
 	t := r.T
 	verifrt.SetSalt(uint64(t.Intn(4)))
 	r.Defer(func() { verifrt.SetSalt(0) })
+	// NETSIM_WORKLOAD pins the workload (throughput measurements only; the
+	// driver never sets it)
+	switch os.Getenv("NETSIM_WORKLOAD") {
+	case "resolve":
+		bodyResolve(r)
+		return
+	case "dial":
+		bodyDial(r)
+		return
+	case "dnscache":
+		bodyDNSCache(r)
+		return
+	case "transports":
+		bodyTransports(r)
+		return
+	}
 	if r.Prop == "C19" {
 		switch t.Weighted([]int{4, 1}) {
 		case 0:
